@@ -44,6 +44,13 @@ def run(ctx):
         order(ctx, crate, crs, tag)
         union_order(ctx, crate, tag)
         provider_siblings(ctx, crate, crs, tag)
+        # the anchors of C16 include the Mapping: its iterator drives the order computation and its serde impls are the
+        # snapshot's wire format - the C19 rules for both run here too
+        import c19
+        e19 = c19.env()
+        ctx.guard("mapping-iter" + tag, c19.iter_protocol, ctx, crate, crs, e19, tag)
+        ctx.guard("mapping-serde" + tag, c19.serde_shape, ctx, crate, crs, e19, tag)
+        ctx.guard("mapping-bounds" + tag, c19.bounds, ctx, crate, crs, c19.mapping_bodies(crate), e19, tag)
 
 
 # ---------------------------------------------------------------------------------------------
